@@ -17,7 +17,7 @@
 (* replicas (gaps, offset, own values).                                    *)
 (***************************************************************************)
 EXTENDS ReadPath, FiniteSetsExt, Json, IOUtils
-CONSTANTS N, MaxRep, MaxChunks, Steps, NC, CaseCap
+CONSTANTS N, MaxRep, MaxChunks, Steps, NC, N3, CaseCap
 
 Stores == {1, 2}
 Names == {"a", "r", "s", "z"}
@@ -62,6 +62,14 @@ AWorlds ==
         ix \in { s \in UNION { [1..n -> 1..Len(AOptSeq)] : n \in 1..MaxRep } :
                     \A i, j \in DOMAIN s : i < j => s[i] <= s[j] } }
 
+(* class A3 (N3 > 0): three identical replicas, cuts without overlap *)
+A3Opts == IF N3 = 0 THEN <<>> ELSE SetToSeq({ cl \in ChunkLists(N3, 2) : Disjoint(cl) })
+A3Worlds ==
+    { [step |-> st, shape |-> "a",
+       reps |-> [i \in 1..3 |-> Rep(1, i, "r", 0, FALSE, [k \in 1..N3 |-> k], A3Opts[ix[i]])]]
+      : st \in Steps,
+        ix \in { s \in [1..3 -> 1..Len(A3Opts)] : s[1] <= s[2] /\ s[2] <= s[3] } }
+
 (* class B: two logical series x replica label patterns x placement *)
 BCuts == { cl \in ChunkLists(2, 2) : Disjoint(cl) }
 BWorlds ==
@@ -102,7 +110,7 @@ VARIABLES world,     \* abstract world (as serialised for the harness)
           stage,     \* "stores" | "proxy" | "split" | "iter" | "dedup" | "done"
           streams,   \* store -> sequence of [lbls, chunks (set)]   what each store sent
           series,    \* sequence of [lbls, chunks (sequence)]       proxy output, then overlap-split output
-          iters,     \* sequence of [lbls, it]: bounded iterator [s, hi]  one per (split) series
+          iters,     \* sequence of [lbls, samples]                 one per (split) series
           out        \* sequence of [lbls, samples]                 the Select result
 vars == <<world, reps, cfg, stage, streams, series, iters, out>>
 
@@ -114,14 +122,16 @@ SubRange(w, n) == [lo |-> 2 * w.step, hi |-> (n - 1) * w.step + 300]
 Cfgs(w, cls) ==
     CASE cls = "A" -> { [dedup |-> d, rls |-> {"r", "s"}, strip |-> [s \in Stores |-> s = 1], lo |-> rg.lo, hi |-> rg.hi]
                         : d \in BOOLEAN, rg \in {WholeRange, SubRange(w, N)} }
+      [] cls = "A3" -> { [dedup |-> TRUE, rls |-> {"r", "s"}, strip |-> [s \in Stores |-> TRUE], lo |-> rg.lo, hi |-> rg.hi]
+                        : rg \in {WholeRange, SubRange(w, N3)} }
       [] cls = "B" -> { [dedup |-> d, rls |-> rl, strip |-> sp, lo |-> WholeRange.lo, hi |-> WholeRange.hi]
                         : d \in BOOLEAN, rl \in {{"r", "s"}, {"r"}}, sp \in [Stores -> BOOLEAN] }
       [] cls = "C" -> { [dedup |-> d, rls |-> {"r", "s"}, strip |-> [s \in Stores |-> TRUE], lo |-> rg.lo, hi |-> rg.hi]
                         : d \in BOOLEAN, rg \in {WholeRange, SubRange(w, NC)} }
 
 Init ==
-    /\ \E cls \in {"A", "B", "C"} :
-         /\ world \in (CASE cls = "A" -> AWorlds [] cls = "B" -> BWorlds [] cls = "C" -> CWorlds)
+    /\ \E cls \in {"A", "A3", "B", "C"} :
+         /\ world \in (CASE cls = "A" -> AWorlds [] cls = "A3" -> A3Worlds [] cls = "B" -> BWorlds [] cls = "C" -> CWorlds)
          /\ cfg \in Cfgs(world, cls)
     /\ reps = Concrete(world)
     /\ stage = "stores"
@@ -178,17 +188,16 @@ Split ==
 Iterate ==
     /\ stage = "iter"
     /\ iters' = [i \in DOMAIN series |->
-                    [lbls |-> series[i].lbls, it |-> Leaf(ChainSamples(series[i].chunks), cfg.lo, cfg.hi)]]
+                    [lbls |-> series[i].lbls, samples |-> Bounded(ChainSamples(series[i].chunks), cfg.lo, cfg.hi)]]
     /\ stage' = IF cfg.dedup /\ cfg.rls # {} THEN "dedup" ELSE "done"
-    /\ out' = IF cfg.dedup /\ cfg.rls # {} THEN out
-              ELSE [i \in DOMAIN series |-> [lbls |-> iters'[i].lbls, samples |-> DedupFold(<<iters'[i].it>>)]]
+    /\ out' = IF cfg.dedup /\ cfg.rls # {} THEN out ELSE iters'
     /\ UNCHANGED <<world, reps, cfg, streams, series>>
 
 (* ---- stage 5 (dedup only): dedupSeriesSet joins ADJACENT equal label sets, penalty fold ---- *)
 JoinIters(acc, x) ==
     IF acc # <<>> /\ acc[Len(acc)].lbls = x.lbls
-      THEN [acc EXCEPT ![Len(acc)].seqs = Append(@, x.it)]
-      ELSE Append(acc, [lbls |-> x.lbls, seqs |-> <<x.it>>])
+      THEN [acc EXCEPT ![Len(acc)].seqs = Append(@, x.samples)]
+      ELSE Append(acc, [lbls |-> x.lbls, seqs |-> <<x.samples>>])
 Dedup ==
     /\ stage = "dedup"
     /\ LET groups == FoldLeft(JoinIters, <<>>, iters)
@@ -228,7 +237,11 @@ Terminates == <>(stage = "done")
 
 (* ---- leg B: the worlds, for the harness (which adds the configuration matrix) ---- *)
 CasesFile == IF "VERIF_CASES" \in DOMAIN IOEnv THEN IOEnv.VERIF_CASES ELSE "cases.ndjson"
-Seed == IF "VERIF_SEED" \in DOMAIN IOEnv THEN IOEnv.VERIF_SEED ELSE "1"
-AllWorlds == SetToSeq(AWorlds) \o SetToSeq(BWorlds) \o SetToSeq(CWorlds)
+Seed == IF "VERIF_SEED" \in DOMAIN IOEnv THEN atoi(IOEnv.VERIF_SEED) ELSE 1
+(* at most CaseCap worlds of a class: a seed-dependent stride sample *)
+Sample(S) == LET q == SetToSeq(S)  n == Len(q) IN
+             IF n <= CaseCap THEN q
+             ELSE [i \in 1..CaseCap |-> q[((i * (n \div CaseCap) + Seed) % n) + 1]]
+AllWorlds == Sample(AWorlds) \o Sample(A3Worlds) \o Sample(BWorlds) \o Sample(CWorlds)
 ASSUME ndJsonSerialize(CasesFile, AllWorlds)
 =============================================================================
